@@ -506,9 +506,38 @@ Proof.
     intros H; inversion H; subst. intros u [<-|Hin]; [apply (rows_rect _ _ _ Hr Ea) | now apply (IH b)].
 Qed.
 
-Theorem rstep_rect t o t' : Rect t -> rop_okb t o = true -> rstep t o = Ok t' -> Rect t'.
+Lemma aget_adel_other k k' (d : rdata) : k <> k' -> aget N.eqb k' (adel N.eqb k d) = aget N.eqb k' d.
 Proof.
-  intros Hr Hok. destruct o as [ix|l| |ix|k| | |l|key v]; cbn [rstep rop_okb] in *; intros H.
+  intros Hne. induction d as [|[k0 e0] r IH]; cbn [adel aget]; auto.
+  destruct (N.eqb k k0) eqn:E.
+  - apply N.eqb_eq in E. subst k0. rewrite (proj2 (N.eqb_neq k' k)) by congruence. reflexivity.
+  - cbn [aget]. destruct (N.eqb k' k0); auto.
+Qed.
+
+Lemma NoDup_remove_N (x : N) l : NoDup l -> NoDup (remove N.eq_dec x l).
+Proof.
+  induction 1 as [|y r Hy Hn IH]; cbn; [constructor|]. destruct (N.eq_dec x y); auto.
+  constructor; auto. intros Hin. apply in_remove in Hin. tauto.
+Qed.
+
+(* deleting a column other than the index, or a scalar entry *)
+Theorem delete_rect t key t' : Rect t -> key <> r_index t -> delete t key = Ok t' ->
+  Rect t' /\ rlen t' = rlen t /\ r_index t' = r_index t.
+Proof.
+  intros Hr Hne. pose proof (rect_cols_are t Hr) as Hc. destruct Hr as (Hn & Hi & _).
+  unfold delete. destruct (aget N.eqb key (r_data t)); [|discriminate].
+  intros H; inversion H; subst t'; clear H. cbn [r_index].
+  destruct (rect_intro (adel N.eqb key (r_data t)) (remove N.eq_dec key (r_cols t)) (r_index t) (rlen t)) as [HR HL].
+  - now apply NoDup_remove_N.
+  - apply in_in_remove; auto.
+  - intros c Hin. apply in_remove in Hin. destruct Hin as [Hin Hck].
+    rewrite aget_adel_other by congruence. now apply Hc.
+  - split; [exact HR | split; [exact HL | reflexivity]].
+Qed.
+
+Theorem rstep_rect o : forall t t', Rect t -> rop_okb t o = true -> rstep t o = Ok t' -> Rect t'.
+Proof.
+  induction o as [ix|l| |ix|k| | |l|key v|key|o' IH]; intros t t' Hr Hok; cbn [rstep rop_okb] in *; intros H.
   - apply (rows_rect _ _ _ Hr H).
   - apply (cols_rect _ _ _ Hr Hok H).
   - apply (add_rect t t _ Hr Hr (fun c => iff_refl _) H).
@@ -520,11 +549,16 @@ Proof.
   - apply (transpose_rect _ _ H).
   - destruct (rows_all t l) as [ts|]; cbn [sbind] in H; [|discriminate]. apply (concatenate_rect _ _ H).
   - apply (assign_rect _ _ _ _ Hr H).
+  - apply negb_true_iff, N.eqb_neq in Hok. apply (delete_rect _ _ _ Hr Hok H).
+  - now apply (IH t t').
 Qed.
 
 Lemma rnext_rect t o : Rect t -> rop_okb t o = true -> Rect (rnext t o).
 Proof.
-  intros Hr Hok. unfold rnext. destruct (rstep t o) as [t'|] eqn:E; auto. eapply rstep_rect; eauto.
+  intros Hr Hok. unfold rnext.
+  destruct o; try exact Hr;
+    match goal with |- Rect (match rstep t ?o with _ => _ end) =>
+      destruct (rstep t o) as [t'|] eqn:E; [eapply (rstep_rect o); eauto | exact Hr] end.
 Qed.
 
 Theorem chain_rect ops : forall t, Rect t -> rops_okb t ops = true -> Rect (rfinal t ops).
@@ -549,4 +583,15 @@ Proof.
   - now apply memN_In.
   - intros c Hin. specialize (Hall c Hin). destruct (aget N.eqb c (r_data t)) as [[l|]|]; try discriminate.
     exists l. split; auto. now apply Nat.eqb_eq.
+Qed.
+
+(* every table produced along a chain — the current tables and the tables
+   derived from them under OStay — is rectangular *)
+Theorem chain_every_table ops1 : forall o ops2 t t',
+  Rect t -> rops_okb t (ops1 ++ o :: ops2) = true -> rstep (rfinal t ops1) o = Ok t' -> Rect t'.
+Proof.
+  induction ops1 as [|o1 rest IH]; intros o ops2 t t' Hr Hok; cbn [app rops_okb] in Hok;
+    apply andb_true_iff in Hok; destruct Hok as [Ho Hrest].
+  - cbn. intros H. eapply rstep_rect; eauto.
+  - unfold rfinal. cbn [fold_left]. apply (IH o ops2); auto. now apply rnext_rect.
 Qed.
